@@ -556,6 +556,7 @@ def run(ctx):
     streams.append(C20.foreign_schema_stream(ctx))
 
     streams.append(foreign_instances_stream(ctx, r))
+    streams.append(index_operations_stream(ctx, r))
 
     # too many fields / components
     tm = Stream("too-many-values")
@@ -584,6 +585,97 @@ def run(ctx):
                     break
     streams.append(tm)
     return streams
+
+
+def index_operations_stream(ctx, r):
+    """records are also sequences: rec[i] = value goes through the field's check like an attribute assignment,
+    del rec[i] clears the field like assigning None; what is stored afterwards is still text that renders and
+    serialises; an int set field stores the code, whatever int-like object spelled it"""
+    import copy
+    import enum
+    import json
+    from senaite.astm import codec
+    ix = Stream("index-operations")
+
+    class Code(int, enum.Enum):
+        ONE = 1
+        TWO = 2
+        FIVE = 5
+    for module, letter, spec in schemaio.record_specs():
+        cls = schemaio.real_class(module, letter)
+        if cls is None:
+            continue
+        names = [f["name"] for f in spec["fields"]]
+        for _ in range(12 if ctx.thorough else 3):
+            try:
+                rec_list = codec.decode_record(schemaio.gen_record(r, spec, fill=0.8)[0])
+                if "timestamp" in names:
+                    ti = names.index("timestamp")
+                    rec_list = rec_list + [None] * (ti + 1 - len(rec_list))
+                    rec_list[ti] = rec_list[ti] or "20240101000000"
+                a, b = cls(*rec_list), cls(*rec_list)
+            except Exception:
+                continue
+            i = r.randrange(len(names))
+            case = {"module": module, "letter": letter, "field": names[i], "operation": "del rec[%d]" % i}
+            ix.case(case)
+            ix.count("del")
+            def outcome(fn):
+                try:
+                    fn()
+                except Exception as e:  # noqa
+                    return "op raises " + type(e).__name__
+                return None
+            oa = outcome(lambda: a.__delitem__(i))
+            ob_ = outcome(lambda: setattr(b, names[i], None))
+
+            def rendered(x):
+                try:
+                    dd = x.to_dict()
+                    json.dumps(dd)
+                    return dd
+                except Exception as e:  # noqa  (a required field without a value does not render: in both ways alike)
+                    return "render raises " + type(e).__name__
+            da, db = rendered(a), rendered(b)
+            stored = a._data.get(names[i])
+            if oa != ob_:
+                ix.fail(dict(case, del_=oa, assign_none=ob_), "del rec[i] and clearing the field behave differently", "index-operations/del")
+                continue
+            if da != db or not (stored is None or isinstance(stored, (str, list)) or hasattr(stored, "_data")):
+                ix.fail(dict(case, after_del=repr(da if isinstance(da, str) else da.get(names[i]))[:120],
+                             after_none=repr(db if isinstance(db, str) else db.get(names[i]))[:120], stored=repr(stored)[:80]),
+                        "del rec[i] leaves something else behind than clearing the field does", "index-operations/del")
+        # int-like objects for sets of integer codes
+        for i, f in enumerate(spec["fields"]):
+            subs = [(None, f["scalar"])] if f["shape"] == "scalar" else [(j, sp) for j, sp in enumerate(f["sub"])]
+            for j, sp in subs:
+                if sp["kind"] != "set" or sp.get("inner") != "integer" or not sp["values"]:
+                    continue
+                codes = [int(v[2:]) for v in sp["values"] if v.startswith("i:")]
+                for obj in [True, Code.ONE, Code.TWO, Code.FIVE]:
+                    case = {"module": module, "letter": letter, "field": f["name"], "sub": sp["name"], "value": repr(obj)}
+                    ix.case(case)
+                    ix.count("int-like")
+                    try:
+                        rec = cls()
+                        if j is None:
+                            setattr(rec, f["name"], obj)
+                            stored = rec._data.get(f["name"])
+                        else:
+                            items = [None] * j + [obj]
+                            setattr(rec, f["name"], items if f["shape"] == "component" else [items])
+                            comp = getattr(rec, f["name"])
+                            comp = comp if f["shape"] == "component" else comp[0]
+                            stored = comp._data.get(sp["name"])
+                        accepted = True
+                    except Exception:
+                        accepted, stored = False, None
+                    if accepted and stored not in [str(c) for c in codes]:
+                        ix.fail(dict(case, stored=repr(stored)), "an int set field stores %r for %r: not one of its codes %s" % (
+                            stored, obj, codes), "index-operations/int-like")
+                    elif not accepted and int(obj) in codes and type(obj) is int:
+                        ix.fail(case, "a code given as int is refused", "index-operations/int-refused")
+    return ix
 
 
 def foreign_instances_stream(ctx, r):
